@@ -157,6 +157,10 @@ def main():
         removed = list(old)
         for x in cur:
             if x in removed: removed.remove(x)
+        # an inherent `impl T {` header may be repeated or merged (methods move between blocks of the same type)
+        inherent = lambda x: x.endswith(' {') and re.match(r'(?:#\[[^\]]*\] )*impl\b', x.split(' :: ')[-1]) and ' for ' not in x.split(' :: ')[-1]
+        added = [x for x in added if not (inherent(x) and x in old)]
+        removed = [x for x in removed if not (inherent(x) and x in cur)]
         real_added = []
         for x in added:
             # tolerated: a new free or inherent function with a name that is new in the crate
